@@ -1,17 +1,23 @@
 #!/usr/bin/env python3
 """False-alarm corpus run: every patch under selftest/refactors/ (behaviour-preserving refactorings written by
 independent sub-agents) is applied in a scratch git worktree of /repo under /tmp/rfw/<name> and all 17 checks are run
-against it.  A patch written against an older /repo commit that no longer applies to HEAD is applied on the commit
-it was written for (OLD_BASE); on such a tree the violations that /repo itself had at that commit and that were
-repaired since (FIXED_SINCE) are not counted.
+against it.  A patch written against an older /repo commit that no longer applies to HEAD is applied on the newest
+earlier commit it applies to (OLD_BASES); on such a tree the violations that /repo itself had at that commit and that
+were repaired since are not counted.
 usage: rf_run.py [-j N] [name-prefix ...]        prints '<name> SILENT' or '<name> Cxx:n ...' per patch"""
 import json, os, subprocess, sys
 from concurrent.futures import ThreadPoolExecutor
 HERE = os.path.dirname(os.path.abspath(__file__))
 VERIF = os.path.dirname(HERE)
 RFW = "/tmp/rfw"
-OLD_BASE = "e7d44c8"
-FIXED_SINCE = ["C05/R5.7/variable_versions::ipfix::FieldParser::parse/stop-criterion:ipfix-data"]
+# earlier /repo commits patches may have been written for, newest first, with the violations /repo itself had there
+R155 = ["C15/R15.5/variable_versions::ipfix::Data::parse_be/cached-template-copied:IPFixParser.templates",
+        "C15/R15.5/variable_versions::ipfix::OptionsData::parse_be/cached-template-copied:IPFixParser.options_templates",
+        "C15/R15.5/variable_versions::v9::Data::parse_be/cached-template-copied:V9Parser.templates",
+        "C15/R15.5/variable_versions::v9::OptionsData::parse_be/cached-template-copied:V9Parser.options_templates",
+        "C15/R15.5/decode-path/cache-lookups-borrowed"]
+OLD_BASES = [("d7a156f", R155),
+             ("e7d44c8", R155 + ["C05/R5.7/variable_versions::ipfix::FieldParser::parse/stop-criterion:ipfix-data"])]
 PROPS = ["C%02d" % i for i in range(1, 18)]
 
 
@@ -25,7 +31,9 @@ def prepare(name):
     patch = os.path.join(HERE, "refactors", name + ".patch")
     head = sh("git -C /repo rev-parse --short HEAD")[1].strip()
     marker = os.path.join(wt, ".rf_base")
-    if os.path.isdir(wt) and os.path.exists(marker) and open(marker).read().split()[0] in (head, OLD_BASE + "!"):
+    if os.path.isdir(wt) and os.path.exists(marker) and open(marker).read().split()[0] == head:
+        return wt
+    if os.path.isdir(wt) and os.path.exists(marker) and open(marker).read().split()[0].endswith("!") and open(marker).read().split()[1:] == [head]:
         return wt
     sh("git -C /repo worktree remove --force %s" % wt)
     sh("rm -rf %s" % wt)
@@ -33,12 +41,14 @@ def prepare(name):
     rc, _ = sh("git apply %s" % patch, cwd=wt)
     base = head
     if rc != 0:
-        sh("git checkout -q --detach %s" % OLD_BASE, cwd=wt)
-        rc, o = sh("git apply %s" % patch, cwd=wt)
-        base = OLD_BASE + "!"
-        if rc != 0:
-            base = "FAILED"
-    open(marker, "w").write(base + "\n")
+        base = "FAILED"
+        for ob, _ in OLD_BASES:
+            sh("git checkout -q --detach %s" % ob, cwd=wt)
+            rc, o = sh("git apply %s" % patch, cwd=wt)
+            if rc == 0:
+                base = ob + "!"
+                break
+    open(marker, "w").write(base + " " + head + "\n")
     return wt
 
 
@@ -64,7 +74,9 @@ def run(name):
                         keys.append("?")
         n = o.count("\nVIOLATION ") + (1 if o.startswith("VIOLATION ") else 0)
         if base.endswith("!"):
-            n -= len([k for k in keys if k in FIXED_SINCE])
+            fixed_since = dict(OLD_BASES).get(base[:-1], [])
+            # closure indices in keys are normalised by the engine; compare on the normalised form
+            n -= len([k for k in keys if k in fixed_since])
         if n > 0:
             out.append("%s:%d" % (p, n))
     return name, (" ".join(out) if out else "SILENT") + (" (old base)" if base.endswith("!") else "")
